@@ -129,6 +129,10 @@ func (sc *Dec) planEpisode(t *core.Tape, env *Env, idx int) DecEpisode {
 		mutP = 4
 	}
 	ep.Input = genInput(ps, env, ep.AllowUTF8, ep.AllowDup, mutP)
+	tower := (sc.Mode == "c01" || sc.Mode == "c20") && ps.Chance(1, 200)
+	if tower {
+		ep.Input = gen.Tower(ps)
+	}
 
 	// program
 	os := t.S(lbl + "ops")
@@ -165,6 +169,27 @@ func (sc *Dec) planEpisode(t *core.Tape, env *Env, idx int) DecEpisode {
 	ep.MaxOps = 3000
 	if env.Thorough {
 		ep.MaxOps = 30000
+	}
+	if tower {
+		// token/value splits: k containers opened by tokens, then values
+		ep.MaxOps = 45000
+		switch os.Draw(4) {
+		case 0:
+			ep.Ops, ep.Loop = "", 'T'
+		case 1:
+			ep.Ops, ep.Loop = "", 'V'
+		case 2:
+			ep.Ops, ep.Loop = "", 'S'
+		case 3:
+			k := []int{1, 2, 9990, 9997, 9998, 9999, 10000}[os.Draw(7)]
+			b := make([]byte, k)
+			for i := range b {
+				b[i] = 'T'
+			}
+			ep.Ops = string(b)
+			ep.Loop = "VST"[os.Draw(3)]
+			ep.PtrEvery = -1
+		}
 	}
 
 	// read schedule
@@ -212,8 +237,12 @@ func (sc *Dec) planEpisode(t *core.Tape, env *Env, idx int) DecEpisode {
 	}
 	// faults (separate run class: ~40% of runs are fault-free)
 	fs := t.S(lbl + "faults")
-	if sc.Mode == "c05" || sc.Mode == "c20" {
-		switch fs.Weighted(4, 4, 2) {
+	{
+		w := []int{4, 4, 2}
+		if sc.Mode != "c05" && sc.Mode != "c20" {
+			w = []int{7, 2, 1} // verdict and positions must also hold when faults are retried
+		}
+		switch fs.Weighted(w...) {
 		case 1: // sparse
 			k := 1 + fs.Draw(2)
 			for i := 0; i < k; i++ {
